@@ -166,6 +166,28 @@ Section WithSort.
     | OBatch adds dels => match execute_batch s adds dels with Ok s' => (s', 0) | Err e => (s, e) end
     | OBackupRestore => (s, 0)
     | OReopen => (s, 0)       (* Close + open: durability is RocksDB's, the identity here (trusted) *)
+    | OBackup | ORestore _ => (s, 0)   (* handled by model_bstep, which never gets here *)
+    end.
+
+  (* rdb.Backup into one backup directory / rdb.Restore of the latest backup into a fresh
+     directory: the backup engine (C++) is trusted to snapshot the closed store and to restore
+     the latest snapshot; state = (store, latest snapshot).  Restore with no backup: an error. *)
+  Definition model_bstep (st : store * option store) (o : op) : (store * option store) * N :=
+    let '(s, b) := st in
+    match o with
+    | OBackup => ((s, Some s), 0)
+    | ORestore cont =>
+        match b with
+        | Some bs => ((if cont then bs else s, b), 0)
+        | None => ((s, b), E_OTHER)
+        end
+    | _ => let '(s', e) := model_step s o in ((s', b), e)
+    end.
+
+  Fixpoint model_brun (st : store * option store) (ops : list op) : (store * option store) * list N :=
+    match ops with
+    | [] => (st, [])
+    | o :: r => let '(st1, e) := model_bstep st o in let '(st2, es) := model_brun st1 r in (st2, e :: es)
     end.
 
   Fixpoint model_run (s : store) (ops : list op) : store * list N :=
